@@ -203,6 +203,11 @@ class Interp:
             f = K.peel(n["f"])
             if f.get("k") == "Path" and f["res"].get("name") == "Some" and "local" not in f["res"]:
                 return T
+            # a local closure `let mk = |x| if flag { Some(..) } else { None }` called in place: presence of its body
+            fl = K.local_id(f) if f.get("k") == "Path" else None
+            clo = env.get(("closure", fl)) if fl is not None else None
+            if clo is not None:
+                return self.opt(clo["body"], env)
             return atom("some:" + cond_key(n))
         if k == "MethodCall":
             m = n["method"]
@@ -264,6 +269,8 @@ class Interp:
                     else:
                         div = mk_or(div, self.walk(st["init"], env, ctx) or Fa)
                         sn = K.peel(st["init"])
+                        if isinstance(sn, dict) and sn.get("k") == "Closure":
+                            env[("closure", pat["id"])] = sn
                         if isinstance(sn, dict) and sn.get("k") == "Struct":
                             # `let mut x = S { a: None, .. }; if c { x.a = Some(..) }`: follow the fields of x
                             self.struct_locals[pat["id"]] = sn
@@ -302,6 +309,8 @@ class Interp:
                     env[lid] = self.opt(n["r"], env)
                 elif ty == "bool":
                     env[lid] = self.cond(n["r"], env)
+            # struct literals on the right-hand side (`self.cache = Some(Cache { .. })`) are constructions too
+            self.walk_nested(n["r"], env, ctx)
             return
         if k == "If":
             c = self.cond(n["cond"], env)
